@@ -169,7 +169,7 @@ def check(tier, seed):
         evaluations=total,
         distinct_nontrivial=len(scheds),
         rule=('one evaluation = one seeded run: T in {2,3,4,8,16} tasks (real threads under a baton scheduler) execute 4-32 '
-              'lookups / disjoint writes each through shared, per-task-copied or task-built views of one field; yield points at every '
+              'lookups / disjoint writes each through views of one field that are shared, copied per task, built inside each task, or built by a helper thread that is gone before the tasks start; both lookup forms of the view; yield points at every '
               'instrumented memory access; distinct = distinct hash of the (access counter, from, to) context-switch sequence; '
               'non-trivial = at least one preemption was taken inside a library call (not merely at an operation boundary)'),
         samples=samples,
@@ -183,6 +183,7 @@ def check(tier, seed):
         scheduler_modes={k[6:]: v for k, v in stats_all.items() if k.startswith('sched.')},
         stacks={k[6:]: v for k, v in stats_all.items() if k.startswith('stack.')},
         tracked_accesses=stats_all.get('tracked_accesses', 0),
+        lookups_compared_with_the_model=stats_all.get('lookups_compared_with_the_model', 0),
         synchronisation_modelled={k[5:]: v for k, v in stats_all.items() if k.startswith('sync.')},
         pool_tus_not_compiling=sorted(failed_all),
         components=dict(real=['every covfie header reached by field_view::at for the listed stacks, compiled with g++ -fsanitize=thread instrumentation',
@@ -194,7 +195,7 @@ def check(tier, seed):
     )
     rep.assumptions = [
         'completeness of g++ -fsanitize=thread instrumentation for inlined covfie code (inline asm and libstdc++.so internals are not instrumented)',
-        'race freedom is judged by happens-before over the accesses performed; sequential equivalence by bitwise comparison with a sequential run of the same binary',
+        'race freedom is judged by happens-before over the accesses performed; sequential equivalence by bitwise comparison with a sequential run of the same binary; in read-only runs every lookup that ends in one lattice cell or at a node of the linear interpolator is also compared with the array model',
         'condition variables / raw futexes are not modelled (covfie uses none)',
     ]
     return rep.finish()
